@@ -26,7 +26,9 @@ Transforms ==
    Scale(I(-1), I(1)), Scale(I(2), I(3)), Skew(Q(3, 4), RZero), Then(Scale(I(2), I(3)), Rotate(Q(3, 5), Q(4, 5))),
    Then(Rotate(Q(3, 5), Q(4, 5)), Scale(I(2), I(3))),
    \* maps that differ from the identity in a single entry
-   Translate(I(0), I(5)), Scale(I(1), I(3)), Scale(I(3), I(1))} \cup
+   Translate(I(0), I(5)), Scale(I(1), I(3)), Scale(I(3), I(1)),
+   \* reflections whose diagonal entries vanish (the mirror line is a diagonal)
+   <<I(0), I(1), I(1), I(0), I(0), I(0)>>, <<I(0), I(2), I(3), I(0), I(1), I(-1)>>} \cup
   (IF Full THEN {Translate(I(5), I(0)), Skew(RZero, Q(5, 12)), Scale(I(-2), I(-3)), Then(Translate(I(1), I(1)), Scale(I(1), I(-1))), Skew(RZero, Q(5, 12)),
                  Scale(Q(1, 1000), Q(1, 1000)), <<I(1), I(2), I(3), I(4), I(5), I(6)>>} ELSE {})
 Init == /\ shape \in Shapes /\ tf \in Transforms
